@@ -129,6 +129,9 @@ def judge_c02(ctx, idx, op, impl, mi, ms, reason):
 
 
 def judge_c03(ctx, idx, op, impl, mi, ms, reason):
+    if op[0] in ("deca", "decg"):
+        ctx.count(op[0] + "_" + impl.split(" ")[0])
+        return same(ctx, idx, op, impl, mi, "Impl.decAvp / decGroup <-> Avp::decode_from / Grouped::decode_from (public entry points, cursor position)")
     if op[0] != "dec":
         return same(ctx, idx, op, impl, mi, "dictionary set-up")
     r = kv(reason)
@@ -639,7 +642,7 @@ def shipped_defs(wd):
 PROPS = {
     "C01": dict(family="c01", judge=judge_c01, probes=("enc", "len", "dump"), title="Encoded bytes are exactly the RFC 6733 wire format"),
     "C02": dict(family="c02", extra=shipped_defs, judge=judge_c02, probes=("rt",), title="Encode then decode returns the same message"),
-    "C03": dict(family="c03", judge=judge_c03, probes=("dec",), title="Decoding is faithful"),
+    "C03": dict(family="c03", judge=judge_c03, probes=("dec", "deca", "decg"), title="Decoding is faithful"),
     "C04": dict(family="c04", judge=judge_c04, probes=("decq",), title="The decoder is total"),
     "C05": dict(family="c05", judge=judge_c05, probes=("ench", "encw"), title="Encoding never reports success for a frame it did not fully produce"),
     "C06": dict(family="c06", judge=judge_c06, probes=("sdec", "senc"), title="Stream framing is independent of how bytes are segmented"),
